@@ -17,7 +17,28 @@ COMP = z3.Function('compress', Str, Str); DECOMP = z3.Function('decompress', Str
 MD = S('_metadata')
 
 
+ENCV = z3.Function('enc_value', Val, Str); DECV = z3.Function('dec_value', Str, Val)
+
+
+def cp_axioms(st, v):
+    """A1: a structural copy of an immutable scalar is the value itself; of an object it is a different (new) object of the same class"""
+    c = CP(v)
+    st.assume(z3.If(Val.is_ref(v), z3.And(Val.is_ref(c), c != v, TYP(Val.addr(c)) == TYP(Val.addr(v))), c == v))
+
+
+def faithful_options(st, kw):
+    """the round-trip guarantee of A1 is for encode(value, unpicklable=True) with default options only"""
+    if set(kw) - {'unpicklable'}:
+        return False
+    u = kw.get('unpicklable')
+    return u is None or st.entails(u == B(True))
+
+
 def encode(ex, st, pos, kw, node, star, dstar):
+    if not faithful_options(st, kw):
+        lib.used('A1 (negative): encode with options other than unpicklable=True gives no round-trip guarantee')
+        s2 = st.copy(); e = fresh('encoded_lossy', Str); st.assume(E_KIND(e) == 0)
+        return [(st, ('val', Val.s(e))), (s2, ('exc', s2.sym_exc(ordinary=True, label='exc_encode')))]
     lib.used('A1 jsonpickle encode/decode on the faithful domain: decode(encode(v)) is a freshly allocated, structurally equal graph; encode may raise an ordinary exception on unserialisable values')
     x = pos[0]; e = fresh('encoded', Str); s2 = st.copy()
     if ex.is_kind(st, x, 'dict'):
@@ -33,7 +54,7 @@ def encode(ex, st, pos, kw, node, star, dstar):
         st.assume(E_DDOM(e) == st.g['ddom'][Val.addr(d)]); st.assume(E_DMAP(e) == st.g['dmap'][Val.addr(d)])
         st.assume(E_MDOM(e) == st.g['ddom'][Val.addr(m)]); st.assume(E_MMAP(e) == st.g['dmap'][Val.addr(m)])
     else:
-        st.assume(E_KIND(e) == 0)
+        st.assume(E_KIND(e) == 0); st.assume(e == ENCV(x)); st.assume(DECV(e) == CP(x)); cp_axioms(st, x)
     st.g.setdefault('encoded', []).append((e, x))
     return [(st, ('val', Val.s(e))), (s2, ('exc', s2.sym_exc(ordinary=True, label='exc_encode')))]
 
@@ -61,7 +82,7 @@ def decode(ex, st, pos, kw, node, star, dstar):
             outs.append((sD, ('val', d)))
         if sX is not None:
             # not produced by an encode of a recording / dict on this path: an arbitrary decoded value, or an ordinary decoding error
-            s2 = sX.copy(); outs.append((sX, ('val', fresh('decoded')))); outs.append((s2, ('exc', s2.sym_exc(ordinary=True, label='exc_decode'))))
+            s2 = sX.copy(); outs.append((sX, ('val', DECV(e)))); outs.append((s2, ('exc', s2.sym_exc(ordinary=True, label='exc_decode'))))
     return outs
 
 
